@@ -20,9 +20,9 @@ theorem alookup_mem_gen {ν} {n : String} {v : ν} : ∀ {l : List (String × ν
     · rw [if_neg hk] at h; exact mem_cons_of_mem _ (ih h)
 
 /-- **certificate soundness**: the decidable check `famCert` implies `WFSkip` with the certificate's ranks -/
-theorem famCert_sound (I : Inst) (ms : Masters) (cert : List (String × Nat)) (h : famCert I ms cert = true) :
+theorem famCertBase_sound (I : Inst) (ms : Masters) (cert : List (String × Nat)) (h : famCertBase I ms cert = true) :
     WFSkip I ms (rankOf cert) := by
-  unfold famCert at h
+  unfold famCertBase at h
   simp only [Bool.and_eq_true, beq_iff_eq, decide_eq_true_eq, List.all_eq_true] at h
   obtain ⟨⟨⟨⟨⟨⟨⟨⟨⟨h1, h2⟩, h3⟩, h4⟩, h5⟩, h6⟩, h7⟩, h8⟩, h9⟩, h10⟩ := h
   refine ⟨⟨h1, h2, ⟨h3, h4⟩, ?_, ?_, ?_, ?_, ?_, ?_⟩, h9, ?_⟩
@@ -56,6 +56,12 @@ theorem famCert_sound (I : Inst) (ms : Masters) (cert : List (String × Nat)) (h
     | some r =>
       have hm : (n, r) ∈ cert := alookup_mem_gen hc
       exact h10 (n, r) hm
+
+theorem famCert_sound (I : Inst) (ms : Masters) (cert : List (String × Nat)) (h : famCert I ms cert = true) :
+    WFSkip I ms (rankOf cert) := by
+  unfold famCert at h
+  simp only [Bool.and_eq_true] at h
+  exact famCertBase_sound I ms cert h.1
 
 theorem inHull_sound (I : Inst) (t : Q) (h : inHull I t = true) : InHull I t := by
   unfold inHull at h
